@@ -11,7 +11,7 @@ META = {
                   "for every cut point or transport error it gets an exact prefix of whole packets and the stream is closed; under ANY write behaviour (partial sends, "
                   "failure after any byte) the wire holds a prefix of the frame - all of it exactly when send returned - and a reader of that wire gets whole leading "
                   "packets only (c05_writer_any_transport, c05_writer_fault_seen_by_reader). zlib is a section variable with "
-                  "decompress(compress x) = x. Threshold/chunk/header/flusher and the loop skeletons are regenerated from channel.py/stream.py/consts.py; the "
+                  "decompress(compress x) = x. Threshold/chunk/header/flusher, the comparison operators and the pipe-tolerance fact are regenerated from channel.py/stream.py/consts.py; the read/write/send/recv loops themselves are hand-written in the model and pinned to the source by text snapshots of every method of both stream classes, Stream, Channel and compat.get_exc_errno (any edit breaks the tie) plus the differential run; the "
                   "extracted model is compared with the real classes over scripted fake sockets and pipes.",
     "level_note": "Trusted: Coq kernel, pygen, extraction+driver, harness fakes (FakeSock, fake os.read/os.write); zlib round-trip is an explicit hypothesis; kernel "
                   "buffering/select/poll and Win32 pipes are outside the model; a write timeout is fatal by design (property only promises tolerance while reading); tolerance of would-block on PIPES is the generated fact PipeStream_read_tolerates_wouldblock (F45: fixed).",
